@@ -155,6 +155,11 @@ Definition reg_diag (c : aview * list xcall) : list N :=
 Definition reg_diags (cs : list (aview * list dcall)) : list N :=
   flat_map (fun c => reg_diag (fst c, rebuild [] (snd c))) cs.
 
+(* C09 on LONG sessions (registry occupancy beyond the slab's initial capacity of 1024): the same difference-coded
+   histories, judged by C09's own verdict (0 agree with the model; 1 model differs; 2 C09_ok fails) *)
+Definition long_diags (cs : list (aview * list dcall)) : list N :=
+  flat_map (fun c => Twin.diag (fst c, map x_call (rebuild [] (snd c)))) cs.
+
 (* ------------------------------------------------------------------ legacy timers *)
 (* a case: first id the counter will hand out, the actions, per action the observed size of the cleared set
    (relative to its size at the start of the case) and the number of waiting timers the harness knows of *)
